@@ -242,11 +242,11 @@ fn gen_fee_pair(r: &mut Rng, accounts: &[String]) -> (Value, Value) {
     if r.chance(0.12) {
         return (json!(""), json!(""));
     }
-    let rates = ["0", "0.01", "0.010", "0.02", "0.5", "1", "abc", "", "0.1.2", "-0.1", "1e-2", " 0.1", "0.01 ", "0.01\n", "0,01", "1/100", "0x1"];
+    let rates = ["0", "0.01", "0.010", "0.02", "0.5", "1", "abc", "", "0.1.2", "-0.1", "1e-2", " 0.1", "0.01 ", "0.01\n", "0,01", "1/100", "0x1", "00.01", "0.0100", "0.00333333333333333333333333333333", "000.5000000000000000000000000000000000"];
     let addrs_bad = ["", "ab", "Bad-Addr", "with space"];
     let rate = if r.chance(0.07) {
         Value::Null
-    } else if r.chance(0.85) {
+    } else if r.chance(0.8) {
         json!(*r.pick(&rates[..6]))
     } else {
         json!(*r.pick(&rates))
@@ -302,9 +302,9 @@ pub fn gen_world(seed: u64, run: u64, prof: &Profile) -> WorldGen {
         }
         (e, a, "fee_ask_acct".to_string(), "fee_bid_acct".to_string())
     };
-    let nconv = if r.chance(prof.p_convertible.max(0.15)) { r.range(1, 2) as usize } else { 0 };
+    let nconv = if r.chance(prof.p_convertible.max(0.15)) { 1 + r.pick_weighted(&[5, 4, 2]) } else { 0 };
     // "xbase" contains "base", "nusd" contains "usd"
-    let convs: Vec<String> = ["cnva", "xbase"][..nconv].iter().map(|s| s.to_string()).collect();
+    let convs: Vec<String> = ["cnva", "xbase", "cnvc"][..nconv].iter().map(|s| s.to_string()).collect();
     let nq = r.pick_weighted(&[6, 3, 1]) + 1;
     let quotes: Vec<String> = ["usd", "nusd", "eur"][..nq].iter().map(|s| s.to_string()).collect();
     let base = "base".to_string();
@@ -449,11 +449,16 @@ pub fn gen_world(seed: u64, run: u64, prof: &Profile) -> WorldGen {
         time_ns: 1_600_000_000_000_000_000 + r.below(1_000_000_000) * 1_000_000_000,
         probe_seed: r.next(),
         marker_required_attrs: BTreeMap::new(),
+        marker_status: BTreeMap::new(),
     };
     let mut spec = spec;
     for d in spec.markers.keys().cloned().collect::<Vec<_>>() {
         if r.chance(0.25) {
-            spec.marker_required_attrs.insert(d, vec!["kyc.marker.attr".to_string()]);
+            spec.marker_required_attrs.insert(d.clone(), vec!["kyc.marker.attr".to_string()]);
+        }
+        if r.chance(0.12) {
+            // a marker of the same type that is not (or no longer) active
+            spec.marker_status.insert(d, *r.pick(&[1, 2, 4, 5]));
         }
     }
     let mut wg = WorldGen {
@@ -480,7 +485,7 @@ fn mutate_instantiate(m: &mut Value, r: &mut Rng, accounts: &[String]) {
     let nm = 1 + r.pick_weighted(&[6, 3, 1]);
     for _ in 0..nm {
         match r.below(13) {
-            0 => m["name"] = json!(""),
+            0 => m["name"] = json!(*r.pick(&["", "", " ", "\t", "\u{a0}"])),
             1 => m["base_denom"] = json!(""),
             2 => m["supported_quote_denoms"] = json!([]),
             3 => m["executors"] = json!([]),
@@ -576,7 +581,15 @@ fn set_or_remove(m: &mut Value, k: &str, v: Value) {
 }
 
 fn seed_legacy(wg: &mut WorldGen, r: &mut Rng, accounts: &[String], approvers: &[String], bulk: bool) {
-    let n = if bulk { r.range(32, 70) } else { r.range(1, 3) };
+    let n = if bulk {
+        if r.chance(0.12) {
+            r.range(257, 330)
+        } else {
+            r.range(32, 70)
+        }
+    } else {
+        r.range(1, 3)
+    };
     let inc = wg.inc_c * 10u128.pow(wg.precision);
     for _ in 0..n {
         let mut id = r.uuid();
@@ -591,7 +604,12 @@ fn seed_legacy(wg: &mut WorldGen, r: &mut Rng, accounts: &[String], approvers: &
         let size = inc * r.range(1, 12) as u128;
         let owner = r.pick(accounts).clone();
         let quote = r.pick(&wg.quotes).clone();
-        if !bulk && r.chance(0.5) {
+        // one storage key per seeded order (remarkable UUID shapes repeat)
+        let side_is_ask = !bulk && r.chance(0.5);
+        if wg.spec.seeds.iter().any(|s| s.key_id == id && (s.side == "ask") == side_is_ask) {
+            continue;
+        }
+        if side_is_ask {
             let conv = !wg.convs.is_empty() && r.chance(0.4);
             let class = if !conv {
                 json!("Basic")
@@ -918,7 +936,7 @@ pub fn run_one(seed: u64, run: u64, prof: &Profile, enabled: Enabled, want_sampl
 fn gen_migrate(sim: &Sim, r: &mut Rng, prof: &Profile) -> Step {
     let versions = [
         "0.15.0", "0.16.1", "0.16.2", "0.16.3", "0.17.3", "0.18.2", "0.19.0", "0.19.1", "0.19.2", "1.0.0", "1.0.1", "2.3.4",
-        "", "abc", "0.16", "v0.17.0", "0.16.02", "0.17.0-rc1", "0.16.2-rc.1", "0.16.1-beta", "0.15.0-alpha.1", "1.0.0+build5", "<absent>", "<garbage>", "<nodef>0.17.0", "<nodef>1.0.0",
+        "", "abc", "0.16", "v0.17.0", "0.16.02", "0.17.0-rc1", "0.16.2-rc.1", "0.16.1-beta", "0.15.0-alpha.1", "1.0.0+build5", "<absent>", "<garbage>", "<nodef>0.17.0", "<nodef>1.0.0", "0.19.0+hotfix.1", "0.17.3+b1", "0.16.2+x", "0.19.1+meta",
     ];
     let set_version = if r.chance(0.12) {
         None
@@ -1098,6 +1116,13 @@ fn decide(
             let px = if whale { Px { units: 1 + r.below(3) as u128, d: 0 } } else { px };
             if whale {
                 price = px.render();
+            } else if r.chance(0.03) {
+                let e = r.range(4, 12) as u32;
+                size = size.saturating_mul(10u128.pow(e)).min(5 * 10u128.pow(28));
+                size -= size % inc;
+                if size == 0 {
+                    size = inc;
+                }
             }
             let mut id = r.uuid();
             let mut funds = if restricted(sim, &base) { vec![] } else { vec![CoinS::new(size, &base)] };
@@ -1139,7 +1164,7 @@ fn decide(
             }
             let mut size = inc * r.range(1, 20) as u128;
             let whale = wg.precision == 0 && cfg.bid_fee.is_none() && cfg.ask_fee.is_none() && r.chance(0.03);
-            let px = if whale { Px { units: 1 + r.below(3) as u128, d: 0 } } else { px };
+            let mut px = if whale { Px { units: 1 + r.below(3) as u128, d: 0 } } else { px };
             if whale {
                 {
                     let s0 = 10u128.pow(26) * r.range(1, 200) as u128 + r.below(1_000_000) as u128 * inc;
@@ -1147,8 +1172,23 @@ fn decide(
                 }
                 price = px.render();
             }
+            if !whale && wg.precision == 0 && inc == 1 && r.chance(0.01) {
+                // right at the edge of what a 96-bit decimal holds
+                size = (1u128 << 96) - 1 - r.below(2000) as u128;
+                px = Px { units: 1, d: 0 };
+                price = px.render();
+            } else if !whale && r.chance(0.03) {
+                // a large order in a world that may carry fees: totals up to about 10^13 stay inside
+                // the model's domain, larger ones are still judged by the model-free invariants
+                let e = r.range(4, 12) as u32;
+                size = size.saturating_mul(10u128.pow(e)).min(5 * 10u128.pow(28));
+                size -= size % inc;
+                if size == 0 {
+                    size = inc;
+                }
+            }
             // sometimes aim the total at a value whose fee is within a hair of a half unit
-            let mut px = px;
+            let mut px = px; let _ = &mut px;
             if !whale && r.chance(0.12) {
                 if let Some(f) = &cfg.bid_fee {
                     if let Parsed::Ok(rt) = dec::parse(&f.rate) {
@@ -1246,7 +1286,12 @@ fn decide(
                     3 => funds = if funds.is_empty() { vec![CoinS::new(sz, &base)] } else { vec![] },
                     4 => sender = r.pick(&accounts).clone(),
                     5 => {
-                        base = view.asks.get(&id).map(|a| a.base.clone()).unwrap_or(base);
+                        if r.chance(0.5) {
+                            base = view.asks.get(&id).map(|a| a.base.clone()).unwrap_or(base);
+                        } else {
+                            // a look-alike of the base denomination
+                            base = base.to_uppercase();
+                        }
                         funds = vec![CoinS::new(sz, &base)];
                     }
                     _ => {}
@@ -1530,7 +1575,20 @@ fn gen_modify(sim: &Sim, cfg: &Cfg, r: &mut Rng, accounts: &[String]) -> (String
                     Some(f) => (json!(f.rate.clone()), json!(r.pick(accounts).clone())),
                     None => (json!(*r.pick(&RATES_PLAIN)), json!(r.pick(accounts).clone())),
                 },
-                3 => (json!(*r.pick(&RATES_TIE)), json!(r.pick(accounts).clone())),
+                3 => {
+                    if r.chance(0.25) {
+                        // more decimals than the arithmetic keeps: same value after rounding, or not
+                        let basis = match cur {
+                            Some(f) if r.chance(0.5) => f.rate.clone(),
+                            _ => r.pick(&RATES_PLAIN).to_string(),
+                        };
+                        let basis = if basis.contains('.') { basis } else { format!("{}.0", basis) };
+                        let pad = 30usize.saturating_sub(basis.split('.').nth(1).map(|x| x.len()).unwrap_or(0));
+                        (json!(format!("{}{}1", basis, "0".repeat(pad))), json!(r.pick(accounts).clone()))
+                    } else {
+                        (json!(*r.pick(&RATES_TIE)), json!(r.pick(accounts).clone()))
+                    }
+                }
                 4 => {
                     if cur.is_some() || r.chance(0.2) {
                         (json!(""), json!(""))
@@ -1561,7 +1619,7 @@ fn gen_modify(sim: &Sim, cfg: &Cfg, r: &mut Rng, accounts: &[String]) -> (String
                         vec!["ask.accredited".into()]
                     }
                 }
-                2 => vec!["ask.kyc".into()],
+                2 => vec![r.pick(&["ask.kyc", "KYC.Verified", "Ask.Accredited"]).to_string()],
                 _ => vec!["bid.kyc".into(), "ask.kyc".into()],
             };
             m[format!("{}_required_attributes", side)] = json!(l);
